@@ -49,11 +49,11 @@ PROPS = {
         "explanation": "Decides the provenance of every path given to a mutating System call (FileInfo.path of a blob or ruler's own directory), where FileInfos come from (only take_blob of declared targets), which blob reaches which thread (its own node's targets; leaves only hashed), and that the goal parameter reaches the goal-restricted sorter; the path strings of a rule are the lines of its sections as written (the parser pushes the line itself, nothing derived from it). Not decided: that the sorter returns exactly the ancestors (C12).",
     },
     "C10": {
-        "rules": ["C10.R1", "C10.R2", "C10.R3", "C07.R1", "C09.R4", "C08.R1", "C02.R4", "C18.R2", "C01.R10", "C06.R3", "C18.R6"],
+        "rules": ["C10.R1", "C10.R2", "C10.R3", "C07.R1", "C09.R4", "C08.R1", "C02.R4", "C18.R2", "C01.R10", "C06.R3", "C18.R6", "C12.R3"],
         "explanation": "Decides: clean backs up every existing target of every node (complete loops, no skipping path, errors returned); a missing target with a remembered hash is restored by rename from the entry named by that hash; downloaded files get their remembered permission; clean honours its goal; the remembered state clean names cache entries by always describes the file at that path (no stale (hash, mtime) pair after a restore). Not decided: end-to-end behaviour on a real file system.",
     },
     "C11": {
-        "rules": ["C11.R1", "C11.R2", "C11.R4", "C11.R5", "C04.R2", "C16.R2", "C01.R10", "C18.R1", "C01.R11", "C01.R5"],
+        "rules": ["C11.R1", "C11.R2", "C11.R4", "C11.R5", "C04.R2", "C16.R2", "C01.R10", "C18.R1", "C01.R11", "C01.R5", "C07.R2"],
         "explanation": "Decides: user data moves only by single renames (no open+create copy); history written only after a successful join, the file-state table only after all joins; state files read back by a strict decoder must be replaced atomically (temp + rename); directory initialisation completes a partial creation (each create_dir guarded by the absence of that same path); an opened state file is always decoded (an empty one is damage, not `no state`); since a kill can leave the file-state table behind the history, every remembered state is validated against the file (exact-mtime shortcut) and every stored state describes the file at its path. Not decided: the disk state at each individual crash point (fault enumeration).",
     },
     "C12": {
@@ -77,7 +77,7 @@ PROPS = {
         "explanation": "Decides: writer and reader of each state file instantiate bincode with the same type through the default entry points; a decode error is an error all the way up to the entry points (never a default value); no panic-capable local site is reachable from the state readers; the bytes decoded are the file's; the derived encoders write every field unconditionally and the derived decoders default none; the serialised bytes go to the file through write_all (a short write is never taken for a complete one). Not decided: bincode's behaviour on arbitrary, truncated or bit-flipped bytes (dependency semantics).",
     },
     "C17": {
-        "rules": ["C17.R1", "C17.R2", "C17.R3", "C04.R2", "C07.R5", "C18.R1", "C02.R6", "C01.R9", "C01.R11"],
+        "rules": ["C17.R1", "C17.R2", "C17.R3", "C04.R2", "C07.R5", "C18.R1", "C02.R6", "C01.R9", "C01.R11", "C12.R3"],
         "explanation": "Decides: insert never overwrites (only on the miss edge of the same key) and maps Contradiction to Err; every successful re-execution passes through insert; exactly the indices whose tickets differ are reported and mapped to paths[i] of the refreshed blob; the earlier record cannot leave through an error; the hashes compared after a re-execution are those of the files just written (the refresh reuses a remembered hash only under exact mtime equality); the history is not rooted in the cache directory; the record of every rule that finished is written back whatever happened to other rules of the same build (an unrecorded re-execution cannot be contradicted later). Not decided: whether a given history forces re-execution.",
     },
     "C18": {
